@@ -70,7 +70,7 @@ theorem Cases.marks_congr (live : Bool) (info info' : Info) : ∀ (cs : Cases), 
     exact hm.1
 
 theorem switchEnd_default (info : Info) : ∀ (cs : Cases), (switchEnd info cs).1 = cs.compl.2
-  | .nil => rfl
+  | .nil => by simp [switchEnd, Cases.compl]
   | .cons _ d _ _ r => by simp only [switchEnd, Cases.compl]; rw [switchEnd_default info r, Bool.or_comm]
 
 theorem mergeForced_some {x y e : End} (h : x.mergeForced y = some e) : x.isForced = true ∧ y.isForced = true ∧ e.isForced = true := by
